@@ -52,7 +52,7 @@ def parseMsg (j : J) : Except String Msg := do
   else if k = "features_request" then pure (.featuresRequest x)
   else if k = "get_config_request" then pure (.getConfigRequest x)
   else if k = "set_config" then pure (.setConfig x (← j.nat "flags") (← j.nat "miss"))
-  else if k = "packet_out" then pure (.packetOut x (← j.optNat "bid") (← j.boolean "data") (← parseActs j "acts"))
+  else if k = "packet_out" then pure (.packetOut x (← j.optNat "bid") (← j.boolean "data") (← j.nat "in_port") (← parseActs j "acts"))
   else if k = "flow_mod" then
     pure (.flowMod x (← j.nat "cmd") (← j.optNat "mkey") (← j.nat "prio") (← j.nat "cookie") (← j.nat "flags")
             (← j.nat "idle") (← j.nat "hard") (← j.nat "out_port") (← j.optNat "bid") (← parseActs j "acts"))
@@ -67,13 +67,13 @@ def parseEvent (j : J) : Except String Event := do
   let k ← j.string "k"
   if k = "rejected" then pure (.rejected (← j.nat "xid") (← j.nat "code"))
   else if k = "bad_version" then pure (.badVersion (← j.nat "xid") (← j.boolean "starting"))
-  else if k = "traffic" then
+  else if k = "traffic" || k = "rx" then
     let bufs ← match j.get? "buffers" with
       | none => pure none
       | some .null => pure none
       | some v => do pure (some ((← v.asNats).map (· != 0)))
-    pure (.traffic { ports := ← (← j.array "ports").mapM parseCtr, flows := ← (← j.array "flows").mapM parsePair,
-                     lookupCount := ← j.nat "lookup", matchedCount := ← j.nat "matched", buffers := bufs })
+    let n : Snapshot := { ports := ← (← j.array "ports").mapM parseCtr, flows := ← (← j.array "flows").mapM parsePair, buffers := bufs }
+    if k = "rx" then pure (.rx (← j.nat "in_port") n) else pure (.traffic n)
   else pure (.msg (← parseMsg j))
 
 def ctrJ (c : PortCtr) : J := J.ofNats [c.no, c.rxPackets, c.txPackets, c.rxBytes, c.txBytes]
